@@ -776,7 +776,7 @@ func allLeaves(vs []string) bool {
 var evaluators = []string{"get", "first", "has", "locate", "walk", "nodes", "firstnode"}
 
 // machineOps: the evaluators that also have a machine model of their own (driver op <ev>m, JPath/Machines.lean)
-var machineOps = map[string]bool{"first": true, "has": true, "locate": true, "walk": true}
+var machineOps = map[string]bool{"first": true, "has": true, "locate": true, "walk": true, "nodes": true, "firstnode": true}
 
 // modelOut parses a driver answer of an evaluator into the shape of an implementation outcome.
 func modelOut(ev, ans string) out {
